@@ -296,7 +296,11 @@ def derivations(D, x, y, rng):
     ox, px = list(x.objects), list(x.properties)
     take_args = [((), {}), ((ox[::-1],), {}), ((ox[::-1],), {'reorder': True}),
                  ((None, px[::-1]), {'reorder': True}), ((ox[:1], px[:1]), {}),
-                 ((ox + ox[:1], None, True), {}), ((['nope'],), {}), (([],), {})]
+                 ((ox + ox[:1], None, True), {}), ((['nope'],), {}), (([],), {}),
+                 # name lists with repeats, shorter than / as long as / longer than the axis
+                 ((ox[:1] * 2,), {}), ((ox[-1:] * (len(ox) + 1),), {}), ((None, px[:1] * max(len(px), 2)), {}),
+                 ((ox[-1:] + ox[:1] + ox[-1:], px[-1:] * 3), {}), ((ox + ox, px + px[::-1]), {}),
+                 ((ox[-1:] * len(ox), px[-1:] * (len(px) + 2)), {'reorder': True})]
     out = [('copy', lambda: x.copy()),
            ('union', lambda: x.union(y)), ('union-ignore', lambda: x.union(y, ignore_conflicts=True)),
            ('|', lambda: x | y),
@@ -374,7 +378,10 @@ def run_random(concepts, case, spec):
                 lambda: a | b, lambda: a & b, lambda: -a, lambda: ~a,
                 lambda: a.take(rng.sample(list(a.objects), rng.randint(0, len(a.objects))),
                                rng.sample(list(a.properties), rng.randint(0, len(a.properties))),
-                               reorder=rng.random() < .5)]
+                               reorder=rng.random() < .5),
+                lambda: a.take(rng.choices(list(a.objects), k=rng.randint(1, len(a.objects) + 2)) if a.objects else None,
+                               rng.choices(list(a.properties), k=rng.randint(1, len(a.properties) + 2)) if a.properties else None,
+                               reorder=rng.random() < .3)]
         res = call(rng.choice(ders))
         if res is not RAISED and isinstance(res, D):
             live.append(res)
